@@ -65,6 +65,17 @@ def dataplaneGet (t : Tracker K V) (k : K) : Option V :=
   | some v => some v
   | none => get t.dn k
 
+/-- `DesiredView.Len`. -/
+def Tracker.desiredLen (t : Tracker K V) : Int := t.dlen
+/-- `DataplaneView.Len`. -/
+def Tracker.dataplaneLen (t : Tracker K V) : Nat := t.dn.length + t.dd.length
+/-- `PendingUpdatesView.Len`. -/
+def Tracker.pendingUpdatesLen (t : Tracker K V) : Nat := t.du.length
+/-- `PendingDeletionsView.Len`. -/
+def Tracker.pendingDeletionsLen (t : Tracker K V) : Nat := t.dn.length
+/-- `DeltaTracker.InSync`. -/
+def Tracker.inSync (t : Tracker K V) : Bool := t.pendingDeletionsLen == 0 && t.pendingUpdatesLen == 0
+
 /-- `DesiredView.Set`. -/
 def dSet (eqv : V → V → Bool) (t : Tracker K V) (k : K) (v : V) : Tracker K V :=
   match get t.dn k with
